@@ -1,7 +1,9 @@
 // ringdrive drives the real hash selectors of TarsGo (consistenthash, modhash) for check C14.
 //
 //	ringdrive gen -seed S -tier quick|thorough -out DIR     selector level (Message -> Selector.Select)
-//	ringdrive e2e -seed S -out DIR                          end to end over scripted TCP servers
+//	ringdrive e2e -seed S -out DIR                          end to end over scripted TCP servers: direct endpoint lists
+//	                                                        (e2e.go) and registry-fed proxies whose endpoints are blocked
+//	                                                        by the manager's status check and recover (e2e_mgr.go)
 //
 // gen writes
 //
@@ -132,7 +134,9 @@ type Universe struct {
 	pts     [][]uint32
 }
 
-func (u *Universe) weighted() bool { return u.Kind == "ketamaw" || u.Kind == "defaultw" || u.Kind == "modw" }
+func (u *Universe) weighted() bool {
+	return u.Kind == "ketamaw" || u.Kind == "defaultw" || u.Kind == "modw"
+}
 
 func (u *Universe) newSelector() selector.Selector {
 	switch u.Kind {
@@ -399,6 +403,11 @@ func (r *runner) refresh(es []int) {
 		eps = append(eps, r.u.EPs[e-1].ep())
 	}
 	r.sel.Refresh(eps)
+	// the slice belongs to the caller, who goes on using it (the endpoint manager deletes from and re-sorts the list
+	// it has just installed, in place): overwriting it is not an operation on the selector and must not change routing
+	for i := range eps {
+		eps[i] = endpoint.Endpoint{Host: "203.0.113.9", Port: 9, Timeout: 3000, Istcp: endpoint.TCP, Proto: "tcp", Key: "203.0.113.9:9"}
+	}
 	r.list = nil
 	for _, e := range es {
 		if r.hasHost(e) < 0 {
